@@ -18,6 +18,10 @@ type c10Item struct {
 	Body  []c10Item `json:"body,omitempty"`  // block / if / for body
 	Cond  bool      `json:"cond,omitempty"`  // if: condition value
 	Times int       `json:"times,omitempty"` // for: iterations
+	// Trim (block whose body is one text): the block tags carry '-' markers towards the body, the text
+	// is padded with whitespace: {% block n -%}  text  {%- endblock %} - the definition is "text",
+	// also when it is reached through block.Super
+	Trim bool `json:"trim,omitempty"`
 }
 
 type c10Tpl struct {
@@ -68,7 +72,14 @@ func c10Src(items []c10Item) string {
 		case "superif":
 			sb.WriteString("{% if block.Super %}Y{% else %}N{% endif %}")
 		case "block":
+			if it.Trim && len(it.Body) == 1 && it.Body[0].Kind == "text" {
+				sb.WriteString("{% block " + it.Name + " -%} \n " + it.Body[0].Text + "  \t{%- endblock %}")
+				break
+			}
 			sb.WriteString("{% block " + it.Name + " %}" + c10Src(it.Body) + "{% endblock %}")
+		case "cblock":
+			// a commented-out definition: defines nothing, renders nothing
+			sb.WriteString("{% comment %}{% block " + it.Name + " %}COMMENTED{{ block.Super }}{% endblock %}{% endcomment %}")
 		case "if":
 			c := "0"
 			if it.Cond {
@@ -395,7 +406,7 @@ func (g *c10Gen) body(lvl, depth int, inBlock bool) []c10Item {
 			body := g.body(lvl, depth-1, true)
 			g.loops = savedLoops
 			g.encl = g.encl[:len(g.encl)-1]
-			out = append(out, c10Item{Kind: "block", Name: name, Body: body})
+			out = append(out, c10Item{Kind: "block", Name: name, Body: body, Trim: len(body) == 1 && body[0].Kind == "text" && drawInt(g.t, 0, 2, "trimblock") == 0})
 		case "if":
 			if depth > 0 {
 				out = append(out, c10Item{Kind: "if", Cond: drawBool(g.t, "cond"), Body: g.body(lvl, depth-1, inBlock)})
@@ -441,6 +452,9 @@ func genC10(t *rapid.T) *c10Case {
 			tp.File = dirs[lvl] + "t.tpl"
 		}
 		tp.Top = g.body(lvl, 3, false)
+		if len(g.known) > 0 && drawInt(t, 0, 3, "cblock") == 0 {
+			tp.Top = append(tp.Top, c10Item{Kind: "cblock", Name: pick(t, "cbname", g.known)})
+		}
 		if lvl > 0 {
 			tp.Ref = prevFile // rooted
 			if drawBool(t, "relative") {
@@ -500,7 +514,7 @@ func relPath(from, to string) string {
 
 var _ = register(&propSpec{
 	ID:    "C10.chain",
-	Rule:  "inheritance chains base <- l1 <- ... (1-5 levels, files in different directories, parents named rooted or relatively with ..) in an in-memory loader; per level random block sets: override (with 0-n block.Super - printed, filtered, bound by with, tested by if -, also twice, inside loops, before and after nested blocks), inherit, add new blocks, nest fresh blocks inside overrides, text outside blocks; base blocks nested in blocks, in if-branches (true/false) and in for-loops. Every level is rendered (twice) and compared with a reference resolution, and once more through a page that includes it (by a literal and by a computed name); the base is rendered before and after its children; then 0-6 further renders of any level in any order on a fresh set, fetched with FromCache or FromFile. Loops iterate over distinct letters and definitions print the current element of a loop that encloses them in their own template (so a definition rendered through Super must show the current iteration). Blocks nested inside overrides carry fresh names or re-define an ancestor's block that was created later than the enclosing one (so blocks never contain each other - that has no defined rendering - while a block an ancestor defines at top level may be re-defined inside another block's override). Non-trivial: >= 2 levels with an override and (Super or nested block or a skipped level); distinct by sources.",
+	Rule:  "inheritance chains base <- l1 <- ... (1-5 levels, files in different directories, parents named rooted or relatively with ..) in an in-memory loader; per level random block sets: override (with 0-n block.Super - printed, filtered, bound by with, tested by if -, also twice, inside loops, before and after nested blocks), inherit, add new blocks, nest fresh blocks inside overrides, text outside blocks, commented-out definitions of known blocks (comment tag), definitions that are one text trimmed by '-' markers on the block tags; base blocks nested in blocks, in if-branches (true/false) and in for-loops. Every level is rendered (twice) and compared with a reference resolution, and once more through a page that includes it (by a literal and by a computed name); the base is rendered before and after its children; then 0-6 further renders of any level in any order on a fresh set, fetched with FromCache or FromFile. Loops iterate over distinct letters and definitions print the current element of a loop that encloses them in their own template (so a definition rendered through Super must show the current iteration). Blocks nested inside overrides carry fresh names or re-define an ancestor's block that was created later than the enclosing one (so blocks never contain each other - that has no defined rendering - while a block an ancestor defines at top level may be re-defined inside another block's override). Non-trivial: >= 2 levels with an override and (Super or nested block or a skipped level); distinct by sources.",
 	Gen:   func(t *rapid.T) any { return genC10(t) },
 	New:   func() any { return &c10Case{} },
 	Check: checkC10,
